@@ -109,7 +109,7 @@ class Gen:
                 n -= 1
             args = [("pos", self.small_expr(names)) for _ in range(n)]
             if has_rest:
-                args += [("pos", self.small_expr(names)) for _ in range(r.randint(0, 2))]
+                args += [("pos", self.small_expr(names)) for _ in range(r.choice([0, 1, 2, 3, 5]))]
         elif form < 0.6:
             # mixed: some positional, the rest named (possibly in another order)
             k = r.randint(0, len(plain))
@@ -206,6 +206,15 @@ class Gen:
                 body.append(self.small_expr(inner_names))
                 funcs[fname] = ("value", params)
             out.append(("deffn", fname, params, ("seq", body)))
+        elif k < 0.84:
+            # an anonymous function created here, called from inside another function where the same names mean something else
+            nm = r.choice(names)
+            hof = self.fresh("hof")
+            lam = ("fn", [("u", None, False)], ("list", [V("u"), V(nm)]))
+            out.append(("deffn", hof, [("g", None, False)], ("seq", [("def", nm, I(7777)), ("def", "u", I(8888)), CALL("g", I(r.randint(1, 9)))])))
+            out.append(LOG("hof.%d.%s" % (depth, nm), CALL(hof, lam)))
+            if r.random() < 0.5:
+                out.append(LOG("imm.%d.%s" % (depth, nm), ("call", lam, [("pos", I(r.randint(1, 9)))])))
         else:
             cands = list(funcs.items())
             if not cands:
@@ -561,7 +570,8 @@ def t_defaults(g):
 def t_binding(g):
     f = ("deffn", "f", [("a", None, False), ("b", I(20), False), ("c", I(30), False), ("rest...", None, True)],
          ("list", [V("a"), V("b"), V("c"), V("rest...")]))
-    calls = [CALL("f", I(1)), CALL("f", I(1), I(2), I(3), I(4), I(5)), CALL("f", I(1), ("named", "c", I(3))),
+    calls = [CALL("f", I(1)), CALL("f", I(1), I(2), I(3), I(4), I(5)), CALL("f", I(1), I(2), I(3), I(4), I(5), I(6), I(7), I(8)),
+             CALL("f", I(1), ("named", "c", I(3))),
              CALL("f", ("named", "b", I(2)), ("named", "a", I(1))), CALL("f", I(9), ("named", "a", I(1))),
              CALL("f", ("spread", ("list", [I(1), I(2)]))), CALL("f", I(1), ("spread", ("list", [I(2), I(3), I(4)])), I(5)),
              CALL("f", ("spread", ("map", [(S("a"), I(1)), (S("c"), I(3))]))), CALL("f", I(0), ("spread", ("map", [(S("b"), I(2))]))),
@@ -635,4 +645,20 @@ def t_destructuring(g):
             ("block", [LOG("leak", V("undefined_target"))], [(None, LOG("no-leak", S("ok")))], [])]
 
 
-SCOPE_TEMPLATES = [t_destructuring, t_counter, t_lexical_vs_dynamic, t_assign_nearest, t_defaults, t_binding, t_methods, t_fresh_frames, t_def_in_block]
+def t_higher_order(g):
+    """anonymous functions passed around and called where other bindings of the same names are live"""
+    return [("def", "k", I(1)),
+            ("deffn", "apply1", [("g", None, False), ("v", None, False)], ("seq", [("def", "k", I(1000)), ("def", "x", I(5000)), CALL("g", V("v"))])),
+            LOG("h1", CALL("apply1", ("fn", [("x", None, False)], ("bin", "+", V("x"), V("k"))), I(3))),
+            LOG("h2", ("call", ("fn", [("x", None, False)], ("bin", "+", V("x"), V("k"))), [("pos", I(4))])),
+            ("deffn", "outer", [("k", None, False)], ("seq", [CALL("apply1", ("fn", [("y", None, False)], ("list", [V("y"), V("k")])), I(7))])),
+            LOG("h3", CALL("outer", I(50))),
+            ("deffn", "twice", [("f", None, False)], ("fn", [("z", None, False)], CALL("f", CALL("f", V("z"))))),
+            LOG("h4", ("call", CALL("twice", ("fn", [("n", None, False)], ("bin", "*", V("n"), V("k")))), [("pos", I(3))])),
+            ("assign", "k", I(2)),
+            LOG("h5", ("call", CALL("twice", ("fn", [("n", None, False)], ("bin", "*", V("n"), V("k")))), [("pos", I(3))])),
+            LOG("h6", ("pipe", I(9), V("apply1"), [("pos", I(1))]) if False else CALL("apply1", ("fn", [("q", None, False), ("r", I(0), False)], ("list", [V("q"), V("r"), V("k")])), I(8))),
+            LOG("h7", ("comp", "list", [CALL("apply1", ("fn", [("e", None, False)], ("bin", "+", V("e"), V("k"))), V("i"))], [("i", None, ("lit", ("list", (("int", 1), ("int", 2)))))], "single", None))]
+
+
+SCOPE_TEMPLATES = [t_destructuring, t_higher_order, t_counter, t_lexical_vs_dynamic, t_assign_nearest, t_defaults, t_binding, t_methods, t_fresh_frames, t_def_in_block]
